@@ -37,6 +37,15 @@ pub fn run(ctx: &Ctx) -> CheckResult {
             spaces.push(Space { cfg: Cfg::p1(k, n), alphabet: spike_ops.clone(), depth: d - 1, label: "S_pos+spike" });
         }
     }
+    // scalar and bar inputs mixed on the same instance
+    let mixed: Vec<Op> = vec![Op::S(1.0), Op::B(Bar::hlc(2.0, 1.0, 2.0)), Op::S(4.0), Op::B(Bar::hlc(4.0, 1.0, 1.0)), Op::S(2.0), Op::B(Bar::hlc(4.0, 2.0, 4.0)), Op::Reset];
+    for n in 1..=4usize {
+        spaces.push(Space { cfg: Cfg::p1(Kind::FastStoch, n), alphabet: mixed.clone(), depth: d - 2, label: "mixed scalar/bar" });
+        spaces.push(Space { cfg: Cfg::p2(Kind::SlowStoch, n, 2), alphabet: mixed.clone(), depth: d - 2, label: "mixed scalar/bar" });
+        for k in [Kind::Rsi, Kind::Roc, Kind::Er] {
+            spaces.push(Space { cfg: Cfg::p1(k, n), alphabet: mixed.clone(), depth: d - 2, label: "mixed scalar/bar" });
+        }
+    }
     // EMA periods of 2^32 and beyond inside RSI / PPO / SlowStochastic
     for &n in &[(1usize << 32) - 1, 1usize << 32, (1usize << 32) + 2, usize::MAX] {
         spaces.push(Space { cfg: Cfg::p1(Kind::Rsi, n), alphabet: pos.clone(), depth: d - 3, label: "huge period" });
